@@ -1879,6 +1879,87 @@ func doMigration(idx int, st migSetup) {
 	}
 }
 
+
+// ---------------------------------------------------------------- the migration window
+
+func keysTerm(m *msess) string {
+	return fmt.Sprintf("(mkKeys %s %s %s)", bt(m.Pub[:]), bt(m.Priv[:]), bt(m.Share[:]))
+}
+
+// doWindow: registration with the real key functions; `pre` idle exchanges with the re-key roll forced
+// (rotations happen); MigrateProfile's first steps (Moving, hand-off written); `win` idle exchanges
+// with the roll forced INSIDE the window; then the new process reads the hand-off.  The key material
+// (and identity) it loads must be what the old client and the server hold at that moment.
+func doWindow(pre, win int) {
+	cM := randSess(true)
+	cM.Proxy, cM.Net = nil, gnet(1, 3, 1, 1)
+	svM := zeroSess(false)
+	svM.ID = cM.ID
+	hist := []string{"registration (keySessionGenerate / keyListenerInit / keySessionSync)"}
+	desc := map[string]interface{}{"history": &hist}
+	defer func() {
+		if x := recover(); x != nil {
+			fail(fmt.Sprintf("the migration-window scenario panicked: %v", x), "migrate-window-panic", desc)
+		}
+	}()
+	c, sv := cM.build(), svM.build()
+	if err := c2.VerifC12KeyRegister(c, sv); err != nil {
+		stats["window-not-run: registration"]++
+		return
+	}
+	c0 := observe(c, cM)
+	run := func(n int, where string) (string, bool) {
+		it := make([]string, 0, n)
+		for i := 0; i < n; i++ {
+			rot, err := c2.VerifC12IdleExchange(c, sv, 40000)
+			if err != nil {
+				hist = append(hist, where+": idle exchange failed: "+err.Error())
+				fail("an idle exchange with a forced re-key roll failed", "migrate-window-exchange-error", desc)
+				return "", false
+			}
+			hist = append(hist, fmt.Sprintf("%s: idle exchange, re-key roll forced: rotation started = %v", where, rot))
+			it = append(it, "(true, "+keysTerm(observe(c, cM))+")")
+		}
+		return vh.List(it), true
+	}
+	preT, ok := run(pre, "before the migration")
+	if !ok {
+		return
+	}
+	c2.VerifC12SetMoving(c)
+	var h com.Packet
+	if err := c2.VerifC12Write(c, kMigrate, &h); err != nil {
+		fail("writing the migration hand-off failed", "migrate-window-write", desc)
+		return
+	}
+	hist = append(hist, "MigrateProfile: state Moving set, hand-off (infoMigrate) written")
+	winT, ok := run(win, "in the window (hand-off written, not confirmed)")
+	if !ok {
+		return
+	}
+	cEnd, svEnd := observe(c, cM), observe(sv, svM)
+	d0 := zeroSess(false)
+	d := d0.build()
+	if _, err := c2.VerifC12Read(d, kMigrate, &h); err != nil {
+		fail("the new process cannot read the hand-off", "migrate-window-read", desc)
+		return
+	}
+	hist = append(hist, "LoadContext: hand-off read by the new process")
+	dM := observe(d, d0)
+	out.Add(fmt.Sprintf("CWindow %s %s %s %s (Ok (%s, %s))", c0.term(), preT, winT, d0.term(), dM.term(), cEnd.term()),
+		fmt.Sprintf("migration-window-pre%d-win%d", pre, win), pre+win > 0, map[string]interface{}{"history": hist})
+	switch {
+	case dM.ID != cEnd.ID:
+		fail("the migrated session's ID is not the old client's", "migrate-window-identity", desc)
+	case dM.Pub != cEnd.Pub || dM.Priv != cEnd.Priv || dM.Share != cEnd.Share:
+		fail("the key material the migrated session loaded is not what the old client holds at confirmation (a rotation started inside the migration window)", "migrate-window-keys-client", desc)
+	case dM.Share != svEnd.Share:
+		fail("the migrated session's shared secret is not the server's", "migrate-window-keys-server", desc)
+	case cEnd.Share != svEnd.Share:
+		fail("client and server lost key agreement", "migrate-window-agreement", desc)
+	}
+}
+
 // ---------------------------------------------------------------- generators
 
 var (
@@ -2415,6 +2496,19 @@ func main() {
 		}
 		for i, st := range sets {
 			doMigration(i, st)
+		}
+	}
+
+	// ---- the migration window: forced re-key rolls before / after the hand-off was written
+	{
+		ws := [][2]int{{0, 1}, {2, 3}, {1, 0}}
+		if thorough {
+			for i := 0; i < 20; i++ {
+				ws = append(ws, [2]int{rng.Intn(4), rng.Intn(6)})
+			}
+		}
+		for _, w := range ws {
+			doWindow(w[0], w[1])
 		}
 	}
 
